@@ -869,3 +869,224 @@ Qed.
 
 Lemma save_suffixes_wf : forallb dotted save_suffixes = true.
 Proof. vm_compute; reflexivity. Qed.
+
+(* ------------------------------------------------------------------ load(): the class loop on the header bytes *)
+(* the value of path_maybe_image when it does not raise *)
+Lemma path_maybe_image_value k fn b :
+  (sniffs k = false \/ wf_class k = true) ->
+  path_maybe_image k fn b = Ok (ext_valid k fn && (negb (sniffs k) || b)).
+Proof.
+  intros H. destruct (path_maybe_image_total k fn b H) as [r Hr]. rewrite Hr. f_equal.
+  unfold path_maybe_image in Hr. destruct (ext_valid k fn); cbn [negb andb] in *; [|congruence].
+  destruct (sniffs k); cbn [negb orb] in *; [|congruence].
+  destruct (sniff_name k fn); congruence.
+Qed.
+
+Lemma load_class_find ks : forall (g : klass -> bool) fn i, table_ok ks ->
+  load_class ks (map g ks) fn i =
+  Ok (find_index (fun k => ext_valid k fn && (negb (sniffs k) || g k)) ks i).
+Proof.
+  induction ks as [|k ks IH]; intros g fn i Hok; [reflexivity|].
+  cbn [map load_class hd tl find_index].
+  rewrite (path_maybe_image_value k fn (g k) (Hok k (or_introl eq_refl))).
+  destruct (ext_valid k fn && (negb (sniffs k) || g k)); [reflexivity|].
+  apply IH. intros k' H'. apply Hok. now right.
+Qed.
+
+(* the extension test on a name root ++ ext' ++ suffix' depends on lower ext', lower suffix' only *)
+Definition shape_ok (k : klass) (e' s' : str) : Prop :=
+  forallb dotted (csuf k) = true /\ dottedi e' = true /\
+  ((s' = [] /\ existsb (ieq e') (csuf k) = false) \/ dottedi s' = true).
+
+Lemma existsb_ieq_lower x l : existsb (ieq x) l = existsb (fun t => str_eqb (lower t) (lower x)) l.
+Proof. induction l as [|t l IH]; cbn; [reflexivity|]. rewrite IH. unfold ieq. now rewrite str_eqb_sym. Qed.
+
+Lemma ext_valid_shape k root e' s' : shape_ok k e' s' ->
+  ext_valid k (root ++ e' ++ s') = ext_valid_abs k (lower e') (lower s').
+Proof.
+  intros (Hs & He & Hsuf).
+  assert (Hsi : forallb dottedi (csuf k) = true) by (eapply forallb_weaken; [apply dotted_dottedi|assumption]).
+  unfold ext_valid, ext_valid_abs, lmem.
+  destruct Hsuf as [[-> Hex]|Hds].
+  - rewrite (save_splitext (csuf k) root e' [] Hs He (or_introl (conj eq_refl Hex))). reflexivity.
+  - destruct (lower s') as [|c ls] eqn:El.
+    { destruct s'; [discriminate|discriminate]. }
+    rewrite <- El. rewrite <- (existsb_ieq_lower s' (csuf k)).
+    destruct (existsb (ieq s') (csuf k)) eqn:Ex.
+    + apply existsb_exists in Ex as (t & Ht & E). unfold ieq in E. apply str_eqb_eq in E.
+      rewrite (save_splitext (csuf k) root e' s' Hs He (or_intror (ex_intro _ t (conj Ht E)))). reflexivity.
+    + (* the suffix is not one of the class's: the last dotted piece is taken for the extension *)
+      pose proof (splitext_addext_written (csuf k) (root ++ e') s' None) as H. cbn [opt_str] in H.
+      rewrite !app_nil_r, <- app_assoc in H. rewrite H; [reflexivity| |assumption].
+      rewrite app_assoc, (strip_suffix_dotted (csuf k) (root ++ e') s' Hsi Hds), Ex. reflexivity.
+Qed.
+
+
+Definition sniff_lens_ok (ks : list klass) : bool :=
+  forallb (fun k => (sniff_len k =? 0) || (sniff_len k =? 4) || (sniff_len k =? 348) || (sniff_len k =? 540)) ks.
+
+Lemma len_ok_spec intents sl hb :
+  ((sl =? 0) || (sl =? 4) || (sl =? 348) || (sl =? 540)) = true ->
+  (sl <=? zlen hb) = len_ok sl (features intents hb).
+Proof.
+  intros H. unfold len_ok, features. cbn [f4 f348 f540]. pose proof (Zle_0_nat (length hb)) as H0. unfold zlen.
+  destruct (Z.eqb_spec sl 0) as [->|]; [apply Z.leb_le; lia|].
+  destruct (Z.eqb_spec sl 4) as [->|]; [reflexivity|].
+  destruct (Z.eqb_spec sl 348) as [->|]; [reflexivity|].
+  destruct (Z.eqb_spec sl 540) as [->|]; [reflexivity|]. discriminate.
+Qed.
+
+Lemma find_index_ext_in {A} (f g : A -> bool) l : forall i,
+  (forall x, In x l -> f x = g x) -> find_index f l i = find_index g l i.
+Proof.
+  induction l as [|a l IH]; intros i H; cbn; [reflexivity|].
+  rewrite (H a) by now left. destruct (g a); [reflexivity|]. apply IH. intros x Hx. apply H. now right.
+Qed.
+
+Lemma load_by_header_predict ks intents root e' s' hb :
+  table_ok ks -> sniff_lens_ok ks = true -> (forall k, In k ks -> shape_ok k e' s') ->
+  load_by_header ks intents (root ++ e' ++ s') hb
+  = Ok (predict ks (lower e') (lower s') (features intents hb)).
+Proof.
+  intros Hok Hsl Hsh. unfold load_by_header, predict. rewrite load_class_find by assumption. f_equal.
+  apply find_index_ext_in. intros k Hk. unfold accepts_abs, sniff_ok.
+  rewrite (ext_valid_shape k root e' s' (Hsh k Hk)).
+  unfold sniff_lens_ok in Hsl. rewrite forallb_forall in Hsl.
+  now rewrite (len_ok_spec intents (sniff_len k) hb (Hsl k Hk)).
+Qed.
+
+(* quantification over all feature vectors by evaluation *)
+Definition forall_bool (p : bool -> bool) : bool := p true && p false.
+Lemma forall_bool_spec p : forall_bool p = true -> forall b, p b = true.
+Proof. unfold forall_bool. intros H b. apply andb_true_iff in H as [H1 H2]. now destruct b. Qed.
+Definition forall_feat (p : feat -> bool) : bool :=
+  forall_bool (fun a => forall_bool (fun b => forall_bool (fun c => forall_bool (fun d => forall_bool (fun e =>
+  forall_bool (fun g => forall_bool (fun h => forall_bool (fun i => forall_bool (fun j =>
+    p (mkF a b c d e g h i j)))))))))).
+Lemma forall_feat_spec p : forall_feat p = true -> forall f, p f = true.
+Proof.
+  intros H [a b c d e g h i j]. unfold forall_feat in H.
+  repeat (match goal with Hx : forall_bool _ = true |- _ => apply forall_bool_spec with (b := _) in Hx end).
+  pose proof (forall_bool_spec _ H a) as H1. cbv beta in H1.
+  pose proof (forall_bool_spec _ H1 b) as H2. cbv beta in H2.
+  pose proof (forall_bool_spec _ H2 c) as H3. cbv beta in H3.
+  pose proof (forall_bool_spec _ H3 d) as H4. cbv beta in H4.
+  pose proof (forall_bool_spec _ H4 e) as H5. cbv beta in H5.
+  pose proof (forall_bool_spec _ H5 g) as H6. cbv beta in H6.
+  pose proof (forall_bool_spec _ H6 h) as H7. cbv beta in H7.
+  pose proof (forall_bool_spec _ H7 i) as H8. cbv beta in H8.
+  exact (forall_bool_spec _ H8 j).
+Qed.
+
+(* the class generic load returns for an image written by class number n: that class, except that
+   the two classes with the plain Analyze sniffer are shadowed by the SPM2 class before them *)
+Definition canon (ks : list klass) (n : nat) (k : klass) : option nat :=
+  if skind k =? 4 then find_index (fun k' => skind k' =? 5) ks 0 else Some n.
+
+Definition onat_eqb (a b : option nat) : bool :=
+  match a, b with Some x, Some y => Nat.eqb x y | None, None => true | _, _ => false end.
+Lemma onat_eqb_eq a b : onat_eqb a b = true -> a = b.
+Proof. destruct a, b; cbn; try discriminate; auto. intros H. apply Nat.eqb_eq in H. now subst. Qed.
+
+(* the table check behind the theorem: side conditions of the name analysis for every pair of
+   classes, and for every class, valid extension, own suffix and feature vector that satisfies the
+   writer's signature the first-match prediction is the canonical class *)
+Definition check_load_table (ks : list klass) : bool :=
+  sniff_lens_ok ks
+  && forallb (fun k => forallb dotted (csuf k) && forallb dottedl (vexts k)) ks
+  && forallb (fun k => forallb (fun e => forallb (fun j => negb (existsb (ieq e) (csuf j))) ks) (vexts k)) ks
+  && forallb (fun nk =>
+       forallb (fun e => forallb (fun ls =>
+         forall_feat (fun f => implb (writer_sig (snd nk) f)
+                                   (onat_eqb (predict ks e ls f) (canon ks (fst nk) (snd nk)))))
+         ([] :: map lower (csuf (snd nk)))) (vexts (snd nk)))
+     (combine (seq 0 (length ks)) ks).
+
+Lemma all_classes_load_table : check_load_table all_classes = true.
+Proof. vm_compute; reflexivity. Qed.
+
+(* every code of the CIFTI block is accepted by the (regenerated) intent table *)
+Lemma cifti_block_covered : forallb (fun c => in_intervals c cifti_intents) (map Z.of_nat (seq 3000 100)) = true.
+Proof. vm_compute; reflexivity. Qed.
+
+Lemma nth_error_combine_seq {A} (l : list A) : forall s n x,
+  nth_error l n = Some x -> In ((s + n)%nat, x) (combine (seq s (length l)) l).
+Proof.
+  induction l as [|a l IH]; intros s n x H; [destruct n; discriminate|].
+  cbn [length seq combine]. destruct n as [|n]; cbn in H.
+  - inversion H; subst. left. f_equal. lia.
+  - right. replace (s + S n)%nat with (S s + n)%nat by lia. now apply IH.
+Qed.
+
+Lemma load_picks_writer ks intents n k root e e' s' hb :
+  table_ok ks -> check_load_table ks = true ->
+  nth_error ks n = Some k -> In e (vexts k) -> lower e' = lower e -> suffix_ok k s' ->
+  writer_sig k (features intents hb) = true ->
+  load_by_header ks intents (root ++ e' ++ s') hb = Ok (canon ks n k).
+Proof.
+  intros Hok Hchk Hn He Hl Hs Hw.
+  unfold check_load_table in Hchk. rewrite !andb_true_iff in Hchk. destruct Hchk as [[[Hsl Hd] Hx] Hp].
+  rewrite forallb_forall in Hd, Hx, Hp.
+  assert (Hk : In k ks) by (eapply nth_error_In; eauto).
+  pose proof (Hd k Hk) as Hdk. apply andb_true_iff in Hdk as [Hdsuf Hdv].
+  assert (Hde : dottedl e = true) by (rewrite forallb_forall in Hdv; auto).
+  assert (Hle : lower e = e) by now apply dottedl_lower.
+  assert (Hde' : dottedi e' = true) by (apply (dottedi_variant e e' Hl); now apply dotted_dottedi, dottedl_dotted).
+  (* shape of the name for every class of the table *)
+  assert (Hshape : forall j, In j ks -> shape_ok j e' s').
+  { intros j Hj. pose proof (Hd j Hj) as Hdj. apply andb_true_iff in Hdj as [Hdj _].
+    split; [assumption|]. split; [assumption|].
+    destruct Hs as [->|(s & Hsin & Hls)].
+    - left. split; [reflexivity|]. pose proof (Hx k Hk) as Hxk. rewrite forallb_forall in Hxk.
+      specialize (Hxk e He). rewrite forallb_forall in Hxk. specialize (Hxk j Hj).
+      apply negb_true_iff in Hxk. rewrite <- Hxk. clear -Hl. induction (csuf j) as [|t l IH]; cbn; [reflexivity|].
+      rewrite IH. f_equal. unfold ieq. now rewrite Hl.
+    - right. apply (dottedi_variant s s' Hls). apply dotted_dottedi. rewrite forallb_forall in Hdsuf. auto. }
+  rewrite (load_by_header_predict ks intents root e' s' hb Hok Hsl Hshape). f_equal.
+  specialize (Hp (n, k) (nth_error_combine_seq ks 0 n k Hn)). cbn [fst snd] in Hp.
+  rewrite forallb_forall in Hp. specialize (Hp e He). rewrite forallb_forall in Hp.
+  assert (Hls : In (lower s') ([] :: map lower (csuf k))).
+  { destruct Hs as [->|(s & Hsin & Hls)]; [now left|]. right. rewrite Hls. now apply in_map. }
+  specialize (Hp _ Hls). pose proof (forall_feat_spec _ Hp (features intents hb)) as Hf. cbv beta in Hf.
+  rewrite Hw in Hf. cbn [implb] in Hf. rewrite Hl, Hle. now apply onat_eqb_eq.
+Qed.
+
+(* the CIFTI part at byte level: an intent code of the block 3000..3099 makes the intent feature true *)
+Lemma cifti_intent_feature hb :
+  3000 <= dec_s (nifti2_big_endian hb) (take 4 (drop 504 hb)) < 3100 ->
+  fcifti (features cifti_intents hb) = true.
+Proof.
+  intros H. unfold features. cbn [fcifti].
+  set (c := dec_s (nifti2_big_endian hb) (take 4 (drop 504 hb))) in *.
+  pose proof cifti_block_covered as Hc. rewrite forallb_forall in Hc. apply (Hc c).
+  apply in_map_iff. exists (Z.to_nat c). split; [lia|]. apply in_seq. lia.
+Qed.
+
+(* per class: the routes theorem instantiated for every single-file class of the generated table *)
+Lemma routes_per_class (Img : Type) (serialize : Img -> list Z) (compress decompress : option nat -> list Z -> list Z)
+  (keys : list str) :
+  (forall o b, decompress o (compress o b) = b) ->
+  forall k nm e, In k all_classes -> ftypes k = [(nm, e)] -> fkind k <> 2 ->
+  forall img root e' s' fs, lower e' = lower e -> suffix_ok k s' ->
+  exists fs', to_filename Img serialize compress keys k img (root ++ e' ++ s') fs = Ok (Some fs')
+    /\ read_file decompress keys fs' (root ++ e' ++ s') = Some (to_bytes Img serialize img)
+    /\ to_stream Img serialize img = to_bytes Img serialize img.
+Proof.
+  intros codec k nm e Hin Hft Hk img root e' s' fs He Hs.
+  assert (Hwf : wf_class k = true).
+  { pose proof all_classes_wf as H. unfold wf_table in H. rewrite forallb_forall in H. specialize (H k Hin).
+    apply orb_true_iff in H as [H|H]; [assumption|]. rewrite !andb_true_iff in H. destruct H as [[H _] _]. lia. }
+  destruct (routes_named Img serialize compress decompress keys codec k img root nm e e' s' fs Hwf Hft He Hs) as (fs' & H1 & H2).
+  exists fs'. repeat split; assumption.
+Qed.
+
+Lemma load_picks_writer_all n k root e e' s' hb :
+  nth_error all_classes n = Some k -> In e (vexts k) -> lower e' = lower e -> suffix_ok k s' ->
+  writer_sig k (features cifti_intents hb) = true ->
+  load_by_header all_classes cifti_intents (root ++ e' ++ s') hb = Ok (canon all_classes n k).
+Proof. apply load_picks_writer; [apply wf_table_ok, all_classes_wf|apply all_classes_load_table]. Qed.
+
+Lemma analyze_shadowed :
+  exists n k, nth_error all_classes n = Some k /\ canon all_classes n k <> Some n
+    /\ canon all_classes n k = Some 5%nat /\ nth_error all_classes 5 = Some k_Spm2AnalyzeImage.
+Proof. exists 7%nat, k_AnalyzeImage. repeat split; try reflexivity. vm_compute. discriminate. Qed.
